@@ -820,7 +820,9 @@ type genCase struct {
 func genOperation(r *common.Rand, s *x.Schema) *genCase {
 	g := &gen{r: r, s: s, json: &x.J{K: 'o'}, reg: map[string]binding{}, flags: map[string]int{},
 		budget: 6 + r.Pick(22), maxDep: 2 + r.Pick(3), pNested: 0}
-	if r.Chance(1, 4) {
+	if r.Chance(1, 8) {
+		// variables nested in list / object literals: a known-finding class, kept to a minority of the
+		// documents so that it does not mask the rest
 		g.pNested = 12
 	}
 	op := &x.Op{}
